@@ -410,6 +410,10 @@ def run_one(spec, sched=None, line_points=False):
         on = os.environ.get("VERIF_BOOT_SWALLOW") == "1" and sd.get("kind") == "random"
         spec["boot_ticks"] = (0, 0, 2, 3)[(sd.get("seed", 0) // 3) % 4] if on else 0
     k.boot_ticks = spec["boot_ticks"]
+    if "abrt_core" not in spec:
+        sd = spec.get("sched", {})
+        spec["abrt_core"] = bool(sd.get("kind") == "random" and (sd.get("seed", 0) // 5) % 3 == 0)
+    k.abrt_core = spec["abrt_core"]
     k.all_tmps = []
     _CUR.update(kernel=k, settings=settings, hups=[], nreload=0, applied=None)
     os.environ.pop("GUNICORN_PID", None)
